@@ -333,3 +333,13 @@ package httpserver
 //@ func assertPresenceAndOrdering
 //@   loop 1 invariant j >= 0
 //@   loop 2 invariant j >= 0
+
+//@ unit roller_sweep props=C11 files=roller.go nilchecks=on nonnil_params=on filter=`.`
+//@ // log roller sub-directives: safety sweep. ParseRoller is called by the `errors` setup with a nil roller when no
+//@ // log file was given, so it gets an explicit (empty) contract: no non-nil assumption on its parameter.
+//@ use @verif/specs/stdlib.spec:stdlib
+//@ // package-level map created by its initialiser and never reassigned
+//@ invariant lumberjacks != nil
+//@ func ParseRoller
+//@ func DefaultLogRoller
+//@   ensures result != nil
